@@ -83,6 +83,10 @@ def run_probe(unit, ctx):
     if unit["i"] == 0:
         defn, pts = probes.witness_defn(), probes.witness_points()
         defn = dict(defn, sensors={}, sensor_noises={}, reading_keys={})
+    elif unit["i"] % 3 == 1:
+        defn = probes.gate_probe_defn(rng)
+        pts = probes.gate_points(rng, defn)
+        R.stats.inc("logistic_gate_probe_programs")
     else:
         defn = probes.random_probe_defn(rng)
         pts = [probes.probe_point(rng, defn) for _ in range(10)]
